@@ -113,6 +113,35 @@ def command_placeholders_rule(ctx, rule: str) -> None:
                   f"`{tmpl}` fails, get_remote() answers None and an enabled push is silently skipped", loc="src/bumpver/vcs.py", witness={"command": tmpl})
 
 
+def command_options_rule(ctx, rule: str, which: str) -> None:
+    """Options of two git commands on which other steps rely.
+    status: the porcelain listing is read as "every line that is not `??` is a change to a tracked file, every `??` line an
+    untracked file" - an option that adds other line kinds (`--ignored`: `!!` lines) or hides untracked files (`-uno`) changes
+    what the dirty check decides.
+    add_path: `git add --update <path>` stages a tracked file and is a no-op otherwise; without `--update` it fails on a
+    configured file that git ignores (after the files were rewritten - `--dry` had exited 0) and adds untracked ones."""
+    import shlex as _shlex
+    tmpl = ctx.prog.const("vcs", "VCS_SUBCOMMANDS_BY_NAME").get("git", {}).get(which)
+    if tmpl is None:
+        return
+    try:
+        toks = _shlex.split(tmpl.replace("{", "<").replace("}", ">"))
+    except ValueError:
+        toks = tmpl.split()
+    if which == "status":
+        bad = [t_ for t_ in toks[2:] if t_.startswith("--ignored") or t_ in ("-uno", "--untracked-files=no") or t_.startswith("--ignore-submodules")]
+        ctx.check(rule, not bad, "git 'status': the listing holds changed tracked files and untracked files, nothing else and nothing less",
+                  "vcs.VCS_SUBCOMMANDS_BY_NAME['git']['status'] lists other entries than changed and untracked files",
+                  f"`{tmpl}`: {bad} - ignored files are reported as `!!` lines, which VCSAPI.status reads as changes to tracked files (any ignored build artefact blocks the update); "
+                  f"hidden untracked files let an untracked pattern file through", loc="src/bumpver/vcs.py", witness={"command": tmpl, ".gitignore": "*.log"})
+    elif which == "add_path":
+        ok = any(t_ in ("--update", "-u") for t_ in toks[2:])
+        ctx.check(rule, ok, "git 'add_path': `git add --update` (stages the tracked file; no error for an ignored one)",
+                  "vcs.VCS_SUBCOMMANDS_BY_NAME['git']['add_path'] stages without --update",
+                  f"`{tmpl}`: for a configured file that git ignores `git add` fails after the files were rewritten (`update --dry` exits 0, the real run exits 1 with changed files); "
+                  f"an untracked configured file is added to the commit", loc="src/bumpver/vcs.py", witness={"command": tmpl, ".gitignore": ".env", "file_patterns": ".env"})
+
+
 def run(ctx) -> None:
     prog, effects, cfgs = ctx.prog, ctx.effects, ctx.cfgs
     ctx.rule("R1", "step order: no path executes a later step before an earlier one")
@@ -128,6 +157,26 @@ def run(ctx) -> None:
     dirty_check_handler_rule(ctx, "R3")
     ctx.rule("R12", "contradictory flags are rejected before anything happens: --date together with --pin-date ends in an exit, not in a log line")
     shapes.errors_are_fatal(ctx, "R12", "cli._validate_date", 2)
+    # "... before anything happens": in `update` the argument validators run on every path before the first VCS command, file
+    # access or hook - with the validator's call blocked, no such effect is reachable from the entry
+    upd_fn = prog.function("cli.update")
+    ucfg = cfgs.get(upd_fn.fq)
+    uneff = shapes.node_effects_lazy(prog, effects, ucfg, cfgs.types(upd_fn.fq))
+    eff_nodes = {nid for nid, effs in uneff.items() if any(k.startswith(("VCS_", "FS_WRITE", "HOOK", "PROC")) for k in effs)}
+    n_val = 0
+    for vname in ("cli._validate_date", "cli._validate_release_tag"):
+        vcalls = shapes.find_calls(prog, upd_fn, vname)
+        ctx.check("R12", bool(vcalls), f"cli.update calls {vname}", f"cli.update: {vname.split('.')[-1]} is no longer called", "", loc=upd_fn.loc())
+        for c in vcalls:
+            n_val += 1
+            vn = ucfg.node_containing(c)
+            late = sorted(eff_nodes & ucfg.reachable(blocked_nodes=[vn]))
+            ctx.check("R12", not late, f"cli.update: `{unparse(c)[:40]}` runs before the first VCS command / write / hook on every path",
+                      f"cli.update: {vname.split('.')[-1]} does not run before the first effect on every path",
+                      f"`{ucfg.nodes[late[0]].text()[:60]}` (L{ucfg.nodes[late[0]].lineno}) is reachable without passing `{unparse(c)[:40]}`: a contradictory or malformed argument is "
+                      f"rejected only after tags were fetched - or not at all on the path that skips the call" if late else "", loc=upd_fn.loc(c),
+                      witness={"command": "bumpver update --set-version 1.3.0 --pin-date --date 2024-01-01"})
+    ctx.floor("R12", "argument validators called by cli.update", n_val, 2)
     ctx.rule("R10", "the tag step is the configured one: an (empty) configured tag message reaches the tag command as configured (C12's configured-message rule)")
     ctx.rule("R8", "every command name is in both the git and the hg table (or guarded by name == 'git')")
 
